@@ -368,10 +368,10 @@ class CommonRD:
         try:
             oldreg = self._by_key[key]
         except KeyError:
+            oldreg = None
             path = self._new_pathtail()
         else:
             path = oldreg.path[len(self.entity_prefix) :]
-            oldreg.delete()
 
         # this was the brutal way towards idempotency (delete and re-create).
         # if any actions based on that are implemented here, they have yet to
@@ -397,6 +397,11 @@ class CommonRD:
             proxy_host,
             setproxyremote,
         )
+
+        # Only now that the new registration's parameters were accepted (the
+        # constructor raises on bad ones) the old one is replaced
+        if oldreg is not None:
+            oldreg.delete()
 
         self._by_key[key] = reg
         self._by_path[path] = reg
